@@ -18,12 +18,16 @@ def machine : Machine where
   results := fun c => c.threads.map fun t => t.results.reverse
   final := Model.C01.final
 
-def model (line : String) : String := runConc machine line
+/-- cases whose cfg names a mailbox kind (third word) are oracle-only: the model covers the default mailbox -/
+def oracleOnly (line : String) : Bool := (words ((line.splitOn "|").headD "")).length == 3
+
+def model (line : String) : String := if oracleOnly line then "*" else runConc machine line
 
 /-- spec oracle on the implementation's output (C01: O ≤ 1; C02: every accepted Tell handled exactly
     once, nothing else handled, nothing left pending, per-thread order kept) -/
 def judge (line : String) : String :=
   let (c, o) := splitTab line
+  if oracleOnly c then "ok deferred to the python oracle" else
   match (o.splitOn " | F ") with
   | [_, fin] =>
     let fields := words fin
